@@ -155,6 +155,22 @@ def NS.isElected (st : NS) (id : Nat) : Bool :=
     | none => false
     | some peer => (elect (nameOrd peer st.thisName) (st.candidatesFor peer true)).contains id
 
+/-- What a session does right after it authenticated (`node_session.rs`): it asks
+`CheckSession` with its peer's name and ITS OWN nonce and stops itself
+(`session_election_lost`) unless the reply is `NoOtherConnection` or `ThisConnectionContinues`. -/
+def NS.postAuthReply (st : NS) (id : Nat) : Option Reply :=
+  match st.find id with
+  | none => none
+  | some s =>
+    match s.peerName with
+    | none => none
+    | some peer => some (st.checkSession peer (s.conn.getD 0))
+
+def Reply.continues : Reply → Bool
+  | .noOther => true
+  | .thisContinues => true
+  | _ => false
+
 /-! ### Two-node world: one physical connection seen from both ends -/
 
 structure Conn where
